@@ -3,6 +3,7 @@ From Coq Require Import List Arith Bool.
 From Replicat Require Import Model.Repo Proofs.RepoProofs Proofs.RepoTie Gen.RepoFacts.
 From Replicat Require Import Model.Store Model.LocalFs Proofs.LocalFsProofs Proofs.LocalRefine.
 From Replicat Require Gen.C13Facts.
+From Replicat Require Proofs.RepoPartial.
 From Replicat Require Model.LocalBuf Proofs.LocalBufProofs Proofs.LocalBufTie Gen.LocalBufGen.
 Import ListNotations.
 
@@ -35,6 +36,27 @@ Theorem C03_source_order_facts :
   (fact_delete_keeps_chunks_of_all_other_loaded_snapshots && fact_delete_refuses_before_mutating && fact_delete_snapshots_then_chunks = true).
 Proof. exact (conj fact_snapshot_order fact_delete_shape). Qed.
 Print Assumptions C03_source_order_facts.
+
+(* "a backend call fails for good": the loader of delete / clean does not leave a listed snapshot out because its download or
+   its verification failed - the command fails instead (source facts) - and that is what the plan needs: computed from a view that
+   lacks one snapshot, clean removes chunks that snapshot still needs; likewise a chunk removed while a named snapshot object is
+   still in place (a refused removal the command did not stop at) *)
+Theorem C03_loader_source_facts :
+  fact_load_aborts_on_corrupted_snapshot && fact_load_fails_when_a_listed_snapshot_cannot_be_downloaded = true.
+Proof. exact fact_loader_complete. Qed.
+Print Assumptions C03_loader_source_facts.
+Theorem C03_clean_with_full_view_safe : forall f st, Inv st -> Inv (RepoPartial.clean_seeing f (snaps st) st).
+Proof. exact RepoPartial.clean_with_full_view_safe. Qed.
+Print Assumptions C03_clean_with_full_view_safe.
+Theorem C03_clean_with_partial_view_refuted :
+  exists st seen f, Inv st /\ incl seen (snaps st) /\ ~ Inv (RepoPartial.clean_seeing f seen st).
+Proof. exact RepoPartial.clean_with_partial_view_refuted. Qed.
+Print Assumptions C03_clean_with_partial_view_refuted.
+Theorem C03_chunk_removed_before_snapshot_refuted :
+  exists st u f ids p c, plan_delete u f ids st = Some p /\ In c (d_chunks p) /\ Inv st /\
+    ~ Inv {| chunks := filter (fun x => negb (pair_eqb c x)) (chunks st); snaps := snaps st |}.
+Proof. exact RepoPartial.chunk_removed_before_snapshot_refuted. Qed.
+Print Assumptions C03_chunk_removed_before_snapshot_refuted.
 
 (* local backend, INSIDE a mutation: at every one of the micro-steps of an upload (temp file created,
    partially / fully written, renamed) every legal name reads either as before or as after the whole
